@@ -23,11 +23,18 @@ FLP == [k |-> "var", segs |-> <<[t |-> "k", v |-> "forloop"], [t |-> "k", v |-> 
 PartL == <<NText("[l:"), For("j", RangeE(I(1), I(2)), "(1..2)", NoOpt, NoOpt, FALSE, <<NOut(P(VP("forloop", "index"))), NText("<"), NOut(P(FLP)), NText(">")>>, NoElse), NText("]")>>
 Boom == NOut(F(I(1), <<Fl("divided_by", <<I(0)>>)>>))       \* raises LiquidTypeError
 PartE == <<NText("[e:"), Assign("y", P(S("E"))), Boom, NText("]")>>
-MCPartials == << <<"p", PartP>>, <<"q", PartQ>>, <<"r", PartR>>, <<"s", PartS>>, <<"b", PartB>>, <<"e", PartE>>, <<"l", PartL>>, <<"dir/q.html", PartQ>> >>
+\* a partial that renders another one (the inner one sees neither the outer one's arguments nor its
+\* assignments), and a chain whose overriding block renders a partial (which sees nothing of the base)
+PartRR == <<NText("[rr:"), Assign("y", P(S("RR"))), RenderT(S("p"), "none", NilE, "", <<>>), RenderT(S("p"), "with", X, "q", <<>>), NOut(P(X)), NText("]")>>
+PartXB == <<Assign("z", P(S("BASE"))), NText("<"), Block("k", FALSE, <<NText("k")>>), NText(">")>>
+PartXC == <<Extends("xb"), Block("k", FALSE, <<RenderT(S("p"), "none", NilE, "", <<>>), NOut(P(Z))>>)>>
+MCPartials == << <<"p", PartP>>, <<"q", PartQ>>, <<"r", PartR>>, <<"s", PartS>>, <<"b", PartB>>, <<"e", PartE>>, <<"l", PartL>>, <<"dir/q.html", PartQ>>,
+                 <<"rr", PartRR>>, <<"xb", PartXB>>, <<"xc", PartXC>> >>
 
 MCData == { << <<<<"x", vx>>, <<"y", Str("Y")>>, <<"arr", Arr(<<IntV(1), IntV(2)>>)>>, <<"n", Str("p")>>>>, <<>>, <<>>, <<>> >>
               : vx \in {Str("X")} }
           \cup { << <<<<"arr", Arr(<<Str("a")>>)>>, <<"n", Str("nosuch")>>>>, <<>>, <<>>, <<>> >> }
+          \cup { << <<>>, <<>>, <<>>, <<>> >> }          \* no data at all
 MCCfgs == {Cfg("+", TRUE, FALSE, "default")}
 
 MacroM == Macro("m", <<Param("x"), ParamD("w", Y)>>,
@@ -45,6 +52,9 @@ Partial == {Include(S("p"), "none", NilE, "", <<>>),
             Include(S("q"), "for", V("arr"), "x", <<WArg("y", I(9))>>),
             Include(S("p"), "none", NilE, "", <<WArg("x", I(8)), WArg("z", Y)>>),
             Include(V("n"), "none", NilE, "", <<>>),
+            \* a keyword argument named like the variable the tag iterates / binds
+            Include(S("q"), "for", V("arr"), "x", <<WArg("arr", RangeE(I(5), I(6)))>>), Include(S("q"), "with", V("arr"), "x", <<WArg("arr", I(7))>>),
+            RenderT(S("q"), "for", V("arr"), "x", <<WArg("arr", RangeE(I(5), I(6)))>>),
             Quoted(Include(S("p"), "with", I(5), "q", <<>>)), Quoted(RenderT(S("s"), "for", V("arr"), "x", <<>>)),
             Include(S("dir/q.html"), "with", I(5), "", <<>>), Include(S("dir/q.html"), "for", V("arr"), "", <<>>),
             RenderT(S("dir/q.html"), "with", I(6), "", <<>>), RenderT(S("dir/q.html"), "for", V("arr"), "", <<>>),
@@ -58,7 +68,9 @@ Partial == {Include(S("p"), "none", NilE, "", <<>>),
             RenderT(S("p"), "none", NilE, "", <<WArg("x", I(8)), WArg("z", Y)>>),
             RenderT(S("r"), "none", NilE, "", <<>>),
             RenderT(S("b"), "none", NilE, "", <<>>),
-            RenderT(S("nosuch"), "none", NilE, "", <<>>)}
+            RenderT(S("nosuch"), "none", NilE, "", <<>>),
+            RenderT(S("rr"), "none", NilE, "", <<WArg("x", I(8)), WArg("z", Y)>>), RenderT(S("rr"), "with", X, "y", <<>>),
+            Include(S("xc"), "none", NilE, "", <<>>), RenderT(S("xc"), "none", NilE, "", <<WArg("z", I(3))>>), Include(S("rr"), "none", NilE, "", <<>>)}
 Blocks == {With(<<WArg("x", I(1)), WArg("w", Y)>>, <<NOut(P(X)), Assign("x", P(I(2))), NOut(P(X)), NOut(P(V("w")))>>),
            With(<<WArg("y", X)>>, <<Include(S("p"), "none", NilE, "", <<>>)>>),
            With(<<WArg("x", S("in")), WArg("w", X), WArg("y", V("w"))>>, <<NOut(P(V("w"))), Sep, NOut(P(Y))>>),
